@@ -265,7 +265,7 @@ def main(a):
         return v.finish()
 
     # ---- S1: generified core programs
-    n = 250 if quick else 15000
+    n = 250 if quick else 40000
     gates = all_gates()
     sexps = [gen_core.gen_program(a.seed, 112, k, gates, size=22, features={"calls": True, "no_defaults": True, "no_structs": True})[0]
              for k in range(n)]
@@ -297,7 +297,7 @@ def main(a):
              "generic_exit_class": o1[1], "generic_stderr": o1[2][-300:], "twin_stdout": o2[0], "twin_exit_class": o2[1]},
             cells=feature_cells(gsrc))
     # ---- S2: templates
-    n2 = 120 if quick else 5000
+    n2 = 120 if quick else 20000
     cases = [template_case(r, quick) for _ in range(n2)] + [struct_case(r) for _ in range(n2 // 3)]
     og = common.run_programs(exe, [c[0] for c in cases], timeout=10)
     ot = common.run_programs(exe, [c[1] for c in cases], timeout=10)
